@@ -137,3 +137,19 @@ Example C10_example_second_run :
 Proof. exact ex_second_run_by_theorem. Qed.
 Example C10_example_hypotheses : Forall centry_ok ex_es /\ NoDup (map fst ex_es) /\ total_on nat_lt (map fst ex_es).
 Proof. exact (conj ex_es_ok (conj ex_es_nodup ex_es_total)). Qed.
+
+(* non-vacuity: every theorem of this file that has hypotheses has a concrete, non-trivial instance meeting ALL of them
+   (lemmas <Theorem>_witness / <Theorem>_applied in Proofs/WitnessesP.v); a representative one is restated here *)
+From Snaps Require Import Proofs.WitnessesP.
+Example C10_witnesses :
+  (Forall centry_ok w10_es /\ NoDup (map fst w10_es) /\ total_on nat_lt (map fst w10_es)) /\
+  Permutation w10_es w10_es' /\
+  filter (fun e => negb (kept w10_reg w10_skp e)) w10_es <> nil /\
+  examine_file w10_reg w10_skp true true (render (map to_entry w10_es)) = (w10_obs, Some w10_nf) /\
+  examine_file w10_reg w10_skp true false (render (map to_entry w10_es)) = (w10_obs, Some w10_nf_pruned) /\
+  examine_file w10_reg w10_skp false true (render (map to_entry w10_es)) = (w10_obs, Some w10_nf_all) /\
+  examine_file w10_reg w10_skp false true (render (map to_entry w10_es')) = (w10_obs', Some w10_nf_all) /\
+  is_sorted_nat (map fst w10_es) = false /\
+  (total_on nat_lt w10_ids_sorted /\ NoDup w10_ids_sorted /\ is_sorted_nat w10_ids_sorted = true) /\
+  (good_prefix w10_p /\ Forall in_range w10_ks /\ NoDup w10_ks /\ in_range w10_j /\ in_range w10_k).
+Proof. exact C10_witnesses_all. Qed.
